@@ -96,8 +96,10 @@ def main():
         'setup_cmd': '%s mc/setup.py' % PY,
         'hooks': {
             'guard': 'CORANKCO_VERIF',
-            'enable': 'no source hooks: the harness rebinds module-level names (random choice/randint/shuffle, cplex, '
-                      'pulp solver) from outside; CORANKCO_VERIF=1 is exported by the runner but nothing in /repo reads it',
+            'enable': 'no source hooks: before corankco is imported the harness replaces the functions of the `random` '
+                      'module by choice-controller dispatchers, installs (in the "stub" process mode) a cplex stand-in in '
+                      'sys.modules, and rebinds pulp.PULP_CBC_CMD to an enumerating solver in two of the three modes; '
+                      'CORANKCO_VERIF=1 is exported by the runner but nothing in /repo reads it',
             'baseline_off_cmd': 'cd /repo && /venv/bin/python -m pytest -ra -q -p no:cacheprovider --timeout=900 '
                                 '--continue-on-collection-errors',
             'source_commits': [],
